@@ -145,6 +145,16 @@ func c06RunChar(c c06Char) error {
 	if maxW == nil {
 		return &ev.Skip{Why: "nothing accepted"}
 	}
+	if len(cell.Rejected) > 0 {
+		var all []uint32
+		for i := 0; i < spg.MaxTrials; i++ {
+			all = append(all, cell.Rejected[i%len(cell.Rejected)]...)
+		}
+		o := callForced(all, func(k int, n uint32) uint32 { return ref.Choices[k%ref.D] }, 9, r.Generate)
+		if o.Pw != nil {
+			return fmt.Errorf("after %d rejected candidates Generate still returned %q: that outcome is not counted by the reported entropy %v", spg.MaxTrials, o.Pw.String(), ent)
+		}
+	}
 	q := cell.RejW
 	p := new(big.Rat).Set(maxW)
 	if q.Sign() > 0 {
